@@ -139,7 +139,10 @@ def prep(ck, prop_file):
 
 def both(ck, lines, model_ok, shards=12):
     impl = run_lines(harness_bin("h_parser"), lines, shards=shards, timeout=900)
-    model = run_lines(DRIVER, lines, shards=shards, timeout=900) if model_ok else {}
+    # inputs beyond 20000 bytes are run on the implementation only (the extracted model parser walks unary-encoded
+    # lists and takes minutes on them; its totality is a theorem, not something the run has to establish)
+    mlines = [l for l in lines if len(l) < 45000]
+    model = run_lines(DRIVER, mlines, shards=shards, timeout=900) if model_ok else {}
     return impl, model
 
 
@@ -352,6 +355,10 @@ def c12(ck):
         texts.append(("nest", "interface a.b\ntype T " + "(a: ?" * d + "int"))
         texts.append(("nest", "interface a.b\ntype T " + "(a: ?" * d + "!" + ")" * d + "\nmethod M() -> ()\n"))
         texts.append(("nest", "interface a.b\nmethod M(x: " + "?[](b: " * d + "?" + ")" * d + ") -> ()\n"))
+    # very long lines: the reported column (and the rendering of the error) must cope with columns beyond 65535
+    for n in ([70000] if quick else [65534, 65535, 65536, 70000, 200000]):
+        texts.append(("longline", "interface a.b\nmethod M(a: int, " + "b" * n + " !) -> ()\n"))
+        texts.append(("longline", "interface a.b\r# " + "x" * n + "\rmethod M( -> ()\r"))
     lines, meta = [], {}
     for i, (kind, t) in enumerate(texts):
         lines.append("t%d parse %s" % (i, hx(t)))
